@@ -14,6 +14,56 @@ import (
 type Options struct {
 	Trace   bool
 	RaceLog *RaceLog // nil in the plain build
+	// Pristine computes one reference outcome in a pristine child process (nil:
+	// not available). Used by runs whose configuration asks for it.
+	Pristine func(s *scn.Scenario, it SoloItem) (key string, ok bool)
+}
+
+// SoloItem identifies one reference evaluation.
+type SoloItem struct {
+	Text  string `json:"text"`
+	D     int    `json:"d"`
+	C     int    `json:"c"`
+	API   string `json:"api"`
+	Limit int    `json:"limit"`
+}
+
+// SoloInPristineProcess is what the child process runs: the scenario's
+// documents and configuration, one reference evaluation, nothing else.
+func SoloInPristineProcess(s *scn.Scenario, it SoloItem) string {
+	x := newExec(s, Options{})
+	x.sim.mode = 'H'
+	sim.Store(x.sim)
+	defer x.finish()
+	x.installCache()
+	return x.soloRun(it.Text, it.D, it.C, it.API, it.Limit).Key()
+}
+
+// verifyPristine re-computes the reference outcomes of this run in pristine
+// child processes, one process per evaluation: "identical to the value obtained
+// from a freshly compiled expression" must not depend on what this process -
+// or this run - evaluated before, whatever package-level state an edit adds.
+func (x *exec) verifyPristine(opt Options) {
+	if opt.Pristine == nil || !x.s.Cfg.Pristine || len(x.res.Viol) > 0 {
+		return
+	}
+	n := 0
+	for _, k := range x.soloK {
+		if k.outcome.Aborted() || n >= 10 {
+			continue
+		}
+		n++
+		key, ok := opt.Pristine(x.s, SoloItem{k.text, k.d, k.c, k.api, k.limit})
+		if !ok {
+			continue
+		}
+		x.res.Stats.Probes["pristine_process_references"]++
+		if key != k.outcome.Key() {
+			x.viol("oracle-unstable", "oracle-unstable:pristine-process",
+				fmt.Sprintf("fresh Compile(%q).%s on doc %d ctx %d gives %s in this process and %s in a pristine process: the value depends on what was evaluated earlier", k.text, k.api, k.d, k.c, clip(k.outcome.Key()), clip(key)), -1)
+			return
+		}
+	}
 }
 
 // exec is the common state of one scenario execution.
@@ -230,6 +280,7 @@ func RunH(s *scn.Scenario, opt Options) *Result {
 	}
 	if !x.stop {
 		x.recheckSolos()
+		x.verifyPristine(opt)
 	}
 	if rep := opt.RaceLog.Since(mark); rep != "" {
 		x.raceViolations(rep)
